@@ -7,14 +7,21 @@ check("C19", "model_checking",
       "!= complements ==, distinct literals differ, order total, a<=b iff a<b or a==b, a>=b iff a>b or a==b, trichotomy, > and >= are flipped < and <=, "
       "== and < transitive / < irreflexive and respects == on all triples of the types with <= 30 values, tuples: == component-wise, < lexicographic, "
       "+ - * / component-wise, negation involutive / additive inverse / component-wise, tuple / number component-wise, == symmetric across 38 "
-      "mixed-provenance pairs (push/pop/map/filter/field/index/call/computed payloads/library Maybe). Every batch is replayed as a Sylt program through "
+      "mixed-provenance pairs (push/pop/map/filter/field/index/call/computed payloads/library Maybe). HISTORIES (operators are functions of their "
+      "operands): every triple of values of 13 types (list, tuple, blob, enum value, list in tuple / blob / list / enum payload, tuple in list / tuple, "
+      "blob in blob / list) bound to three variables x 21 templates of 3 applications over the same objects (same object left / right / repeated / "
+      "flipped / inside a fresh tuple or list), expected values threaded through one state, laws: step k = the same application alone = on fresh values. "
+      "Every batch is replayed as a Sylt program through "
       "the real compiler and minilua; printed line i is compared with the rendering of the i-th expected value (2.0 = 2 on both sides). "
-      "quick: strided pairs + diagonals (43 771 applications); thorough: all pairs (136 644) + 134 172 sampled depth-3 applications.",
+      "quick: strided pairs + diagonals + strided history triples (58 459 applications, 4 941 histories); thorough: all pairs and all history triples "
+      "(258 656 applications, 41 076 histories) + 134 172 sampled depth-3 applications.",
       "Trusted: TLC, SyltValues/SyltSem as the reading of 'structural', the printer (AST -> Sylt text), render_value (expected value -> text), minilua as "
       "stand-in for Lua 5.3. Bounded: leaves from 2-4 values per scalar type, lists of length <= 3, depth <= 2 exhaustively and depth 3 sampled; "
       "transitivity only on types with <= 30 values; results outside the dyadic model (inexact quotients, division by zero, negative zero) are dropped; "
       "strings over {a, b}. Rejected combinations are counted as not_exercisable (0 on the current tree); vacuity guards demand every (operator, kind) "
-      "cell of the statement judged with both boolean outcomes. Known finding C19.1: `+` on tuples with a string component dies at run time.",
+      "cell of the statement, every history template and shape judged, boolean cells with both outcomes. Histories are 3 steps over 3 objects; longer or "
+      "cross-function state is out of reach. (C19.1, `+` on tuples with a string component, was found by this check and is repaired in /repo.)",
       "TLA+ value universe with spec-level algebraic laws as a TLC invariant, expected values emitted per behaviour, replay into compiler + Lua interpreter; "
-      "negative controls: corrupted expectations, 11 mutations of the emitted runtime, 3 faults planted in the specification's operators",
+      "negative controls: corrupted expectations (flat and inside histories), 16 mutations of the emitted runtime (5 of them stateful, visible to histories "
+      "only), 3 faults planted in the specification's operators",
       "DESIGN.md 4 (P1), 5.6, 7, 8/C19")
